@@ -468,6 +468,38 @@ func (g *cgGraph) equality() (string, bool) {
 	return "", false
 }
 
+// a ground type written as a Folang type expression (false when it holds an opaque generic, a record
+// or a union: those are not annotated)
+func cgFoType(t *cgTy) (string, bool) {
+	if t.v != "" {
+		return "", false
+	}
+	switch {
+	case len(t.args) == 0 && (t.head == "int" || t.head == "string" || t.head == "bool"):
+		return t.head, true
+	case t.head == "[]" && len(t.args) == 1:
+		if a, ok := cgFoType(t.args[0]); ok {
+			if t.args[0].head == "*" || t.args[0].head == "->" {
+				a = "(" + a + ")"
+			}
+			return "[]" + a, true
+		}
+	case (t.head == "*" || t.head == "->") && len(t.args) == 2:
+		a, ok1 := cgFoType(t.args[0])
+		b, ok2 := cgFoType(t.args[1])
+		if ok1 && ok2 {
+			if t.args[0].head == "*" || t.args[0].head == "->" {
+				a = "(" + a + ")"
+			}
+			if t.args[1].head == "*" || t.args[1].head == "->" {
+				b = "(" + b + ")"
+			}
+			return a + t.head + b, true
+		}
+	}
+	return "", false
+}
+
 func c02GraphGen(r *rand.Rand, name string) (fo string, oracleIn string, nparams int) {
 	g := &cgGraph{r: r, used: map[*cgExpr]bool{}}
 	np := 1 + r.Intn(5)
@@ -501,7 +533,19 @@ func c02GraphGen(r *rand.Rand, name string) (fo string, oracleIn string, nparams
 	res := g.pool[r.Intn(len(g.pool))]
 	g.eqs = append(g.eqs, res.eqs...)
 	var sb strings.Builder
-	sb.WriteString("let " + name + " " + strings.Join(pnames, " ") + " =\n")
+	// a RESULT annotation (a quarter of the graphs whose hidden result type can be written): it enters
+	// unification like any other relation and may be the only thing that determines a parameter
+	resGround := res.ground
+	for i := len(g.lets) - 1; i >= 0; i-- {
+		resGround = cgCon("*", g.lets[i].ground, resGround)
+	}
+	resGround = cgCon("*", cgCon("bool"), resGround)
+	annot := ""
+	if ft, ok := cgFoType(resGround); ok && r.Intn(4) == 0 {
+		annot = " : " + ft
+		vstat("graph.result-annotation")
+	}
+	sb.WriteString("let " + name + " " + strings.Join(pnames, " ") + annot + " =\n")
 	for _, p := range g.pre {
 		sb.WriteString("  " + p + "\n")
 	}
@@ -517,6 +561,9 @@ func c02GraphGen(r *rand.Rand, name string) (fo string, oracleIn string, nparams
 		eqs = append(eqs, vsx(e[0].sx(), e[1].sx()))
 	}
 	resTy := cgCon("*", cgCon("bool"), resT)
+	if annot != "" {
+		eqs = append(eqs, vsx(resTy.sx(), resGround.sx()))
+	}
 	return sb.String(), vsx("c02.graph", strconv.Itoa(np), vsx(eqs...), resTy.sx(), vsxStr(sb.String())), np
 }
 
